@@ -14,6 +14,7 @@ _SPLIT = re.compile(r'\r?\n')
 _COMMENT = re.compile(r'^\s*(?:#.*)?$')
 _CONT = re.compile(r'\\\s*$')
 _MARK = re.compile(r'\bmk\d+\b')
+_INCLUDE_LINE = re.compile(r"^\s*include\s+(?:'((?:\\'|[^'])*)'|<([^>]*)>)\s*$")
 
 
 def logical_lines(text):
@@ -249,6 +250,27 @@ def check_text(text, acc, api, start=1, must_reject=False, reject_or_account=Fal
     if must_reject:
         acc.violation('open-construct-accepted', f'{kind}: text must be rejected but was accepted\n{text!r:.800}', case)
         return model
+    # accounting of include lines: one model entry per include line, in order (also when the same file is named twice)
+    want_inc = []
+    lines_all, pending_all, _ = logical_lines(text)
+    for ix in sorted(lines_all):
+        mi = _INCLUDE_LINE.match(lines_all[ix])
+        if mi:
+            want_inc.append([mi.group(1).replace("\\'", "'") if mi.group(1) is not None else mi.group(2), mi.group(2) is not None])
+    got_inc = []
+
+    def collect(stmts):
+        for st in stmts:
+            if 'include' in st:
+                got_inc.extend([[inc['url'], bool(inc.get('system'))] for inc in st['include']['includes']])
+            elif 'function' in st:
+                collect(st['function']['statements'])
+    collect(model['statements'])
+    if want_inc or got_inc:
+        acc.count('include_lines_accounted', len(want_inc))
+        if got_inc != want_inc:
+            acc.violation('include-line-dropped', f'include lines {want_inc!r:.300} but the model holds {got_inc!r:.300}\n{text!r:.600}', case)
+            return model
     # accounting by markers: every marker on a non-comment line must be present in the model
     js = json.dumps(model)
     lines, pending, _ = logical_lines(text)
@@ -408,6 +430,13 @@ def run_texts(spec, acc, api):
         elif x < 0.9:
             gen = MarkGen(rnd, maxdepth=rnd.choice([1, 2, 3]))
             text = '\n'.join(pp(gen.program()))
+            if rnd.random() < 0.25:
+                # blocks of consecutive include lines (adjacent lines merge into one statement), the same file more than once
+                urls = ["'lib.bare'", "'lib.bare'", '<sys.bare>', "'dir/a b.bare'", '<sys.bare>', "'it\\'s.bare'"]
+                block = [f'include {rnd.choice(urls)}' for _ in range(rnd.randint(1, 4))]
+                lines_t = text.split('\n')
+                pos = rnd.choice([0, len(lines_t)])
+                text = '\n'.join(lines_t[:pos] + block + lines_t[pos:])
             if rnd.random() < 0.4:
                 text = with_layout_noise(rnd, text)
             if rnd.random() < 0.12:
